@@ -1,6 +1,6 @@
 (* C19 enforcement model: non-vacuity of the theorems' hypotheses on concrete configurations, the pinned
    behaviour on the inputs of seeded change C19g, and the refutation of the "patterns are for names" variant. *)
-From CJ Require Import Common.Base C19.ModelEnforce C19.ProofsEnforce C19.ProofsRegex.
+From CJ Require Import Common.Base C19.ModelEnforce C19.ProofsEnforce C19.ProofsRegex C19.ProofsStrings.
 
 Definition dot : re := RChr 46.
 (* ^128\.138\.0\.1$   ^169\.254\.   ^fe80:   \.example$   ^[0-9a-fA-F:.%]+$ *)
@@ -127,3 +127,17 @@ Proof. vm_compute. repeat split; reflexivity. Qed.
 (* the matcher against its specification on a concrete word *)
 Example found_example : Found pat_example (bs "www.example").
 Proof. apply pat_match_spec. vm_compute. reflexivity. Qed.
+
+(* the hypotheses of the string-level theorems on concrete texts: "fe80::1%eth0" has no bracket, "443" is clean,
+   "128.138.0.1" is clean -- and the theorem's strings are the covert strings of the examples above *)
+Example strings_hypotheses :
+  clean (bs "443") /\ clean (bs "128.138.0.1") /\
+  has_byte c_lbr (bs "fe80::1%eth0") = false /\ has_byte c_rbr (bs "fe80::1%eth0") = false /\
+  bs "128.138.0.1" ++ c_colon :: bs "443" = bs "128.138.0.1:443" /\
+  c_lbr :: bs "fe80::1%eth0" ++ c_rbr :: c_colon :: bs "443" = bs "[fe80::1%eth0]:443".
+Proof. unfold clean. repeat split; vm_compute; reflexivity. Qed.
+(* order: the same entries in another order decide the same (instance of C19_entry_position_irrelevant) *)
+Example order_example :
+  decide ex_parse_ip ex_resolve (mkEP [] [net_campus] [] [pat_example; pat_exception]) (bs "128.138.0.1:443") =
+  decide ex_parse_ip ex_resolve pol_campus (bs "128.138.0.1:443").
+Proof. vm_compute. reflexivity. Qed.
